@@ -214,6 +214,19 @@ fn gen_case(target: &str, seed: u64, idx: u64, rt: &tokio::runtime::Runtime, dir
 		"csv" | "csvfile" => { let s = *rng.pick(&CSVS); if idx % 7 == 0 { Case { bytes: s.as_bytes().to_vec(), how: "valid".into(), coords: vec![] } } else if idx % 7 == 1 { Case { bytes: { let n = rng.below(30) as usize; rng.bytes(n) }, how: "random bytes".into(), coords: vec![] } } else { Case { bytes: mutate_text(rng, s), how: "mutated text".into(), coords: vec![] } } }
 		"vpl" => {
 			if idx % 16 == 5 { let d = [4usize, 32, 128][(idx / 16 % 3) as usize]; return Case { bytes: format!("{}from_container filename=mem{}", "from_overlayed [ ".repeat(d), " ]".repeat(d)).into_bytes(), how: format!("nesting depth {d}"), coords: vec![] }; }
+			if matches!(idx % 16, 9 | 10 | 11 | 12) {
+				// well-formed pipelines whose numeric arguments sit on and beyond the borders of their types and of the level range
+				let src = *rng.pick(&["from_container filename=mem", "from_debug format=pbf", "from_debug format=png"]);
+				let zs = ["0", "1", "2", "3", "4", "29", "30", "31", "32", "33", "34", "40", "63", "64", "127", "128", "200", "254", "255", "256", "-1", "1e1", "3.5"];
+				let fs = ["0", "-0", "1", "-1", "10", "85.05112877980659", "-85.05112877980659", "85.06", "-85.06", "90", "-90", "91", "179.999999", "180", "-180", "180.0000001", "-181", "360", "-360", "1e9", "-1e9", "1e300", "-1e300", "1e-300", "5e-324"];
+				let text = match idx % 16 {
+					9 => format!("{src} | filter_zoom max={}", rng.pick(&zs)),
+					10 => format!("{src} | filter_zoom min={}", rng.pick(&zs)),
+					11 => format!("{src} | filter_zoom min={} max={}", rng.pick(&zs), rng.pick(&zs)),
+					_ => format!("{src} | filter_bbox bbox=[{},{},{},{}]{}", rng.pick(&fs), rng.pick(&fs), rng.pick(&fs), rng.pick(&fs), if rng.chance(1, 3) { format!(" | filter_zoom min={} max={}", rng.pick(&zs), rng.pick(&zs)) } else { String::new() }),
+				};
+				return Case { bytes: text.into_bytes(), how: "argument at / beyond a type or level border".into(), coords: vec![] };
+			}
 			let s = *rng.pick(&VPLS); if idx % 5 == 0 { Case { bytes: s.as_bytes().to_vec(), how: "valid".into(), coords: vec![] } } else { Case { bytes: mutate_text(rng, s), how: "mutated text".into(), coords: vec![] } }
 		}
 		"mvt" if idx % 6 == 2 => { // a length field that announces far more than the tile holds
@@ -262,6 +275,12 @@ fn execute(target: &str, case: &Case, rt: &tokio::runtime::Runtime, dir: &std::p
 			let mut rng = Rng::new(7); let t = crate::mvt::gen_tile_pub(&mut rng);
 			crate::memsrc::register("mem", Box::new(MemSource::new("mem", vec![((3, 1, 2), crate::mvt::enc_tile(&t))], TileFormat::PBF, TileCompression::Uncompressed)));
 			let r = rt.block_on(async { crate::memsrc::factory().operation_from_vpl(&text).await });
+			// a pipeline that was built is also asked for its parameters, single tiles and a stream
+			if let Ok(op) = &r {
+				let _ = op.get_parameters(); let _ = op.get_tilejson();
+				for c in [TileCoord3 { x: 1, y: 2, z: 3 }, TileCoord3 { x: 0, y: 0, z: 0 }, TileCoord3 { x: 0, y: 0, z: 31 }] { let _ = rt.block_on(op.get_tile_data(&c)); }
+				if let Ok(bb) = versatiles_core::types::TileBBox::new(3, 0, 0, 7, 7) { rt.block_on(async { let mut n = 0; let mut st = op.get_tile_stream(bb).await; while let Some(_) = st.next().await { n += 1; if n > 200 { break; } } }); }
+			}
 			let _ = crate::memsrc::take("mem");
 			if r.is_ok() { "ok" } else { "err" }
 		}
